@@ -89,13 +89,18 @@ func contractFiles(repo string) []string {
 		if info.IsDir() && (info.Name() == ".git" || info.Name() == "docs" || info.Name() == ".github") {
 			return filepath.SkipDir
 		}
-		if !info.IsDir() && info.Name() == "zz_contracts_verif.go" {
+		if !info.IsDir() && isContractFile(info.Name()) {
 			out = append(out, p)
 		}
 		return nil
 	})
 	sort.Strings(out)
 	return out
+}
+
+// A package may have several contract files: zz_contracts_verif.go, zz_contracts_c09_verif.go, ...
+func isContractFile(name string) bool {
+	return strings.HasPrefix(name, "zz_contracts") && strings.HasSuffix(name, "_verif.go")
 }
 
 func pkgPathOfFile(repo, file string) string {
@@ -179,8 +184,9 @@ func (P *Prog) loadContracts(pkgPath string) (*ContractSet, error) {
 		return nil, err
 	}
 	rel := strings.TrimPrefix(strings.TrimPrefix(pkgPath, modPath), "/")
-	f := filepath.Join(P.repo, filepath.FromSlash(rel), "zz_contracts_verif.go")
-	if _, err := os.Stat(f); err == nil {
+	ms, _ := filepath.Glob(filepath.Join(P.repo, filepath.FromSlash(rel), "zz_contracts*_verif.go"))
+	sort.Strings(ms)
+	for _, f := range ms {
 		if err := cs.loadFile(f); err != nil {
 			return nil, err
 		}
@@ -210,7 +216,7 @@ func (P *Prog) genFunction(fn *ssa.Function, con *FuncContract) *Gen {
 			decr: map[*ssa.BasicBlock]string{}, headState: map[*ssa.BasicBlock]State{}, strlits: map[string]string{},
 			closures: map[ssa.Value]*ssa.MakeClosure{}, callNo: map[string]int{}, debug: map[string][]dbgRec{},
 			iterKey: map[*ssa.Range]string{}, usedFns: map[string]bool{}, lastType: map[string]types.Type{},
-			atcallSeen: map[*Clause]bool{}, noContract: map[string]bool{}, heapModule: map[string]bool{}, stableFV: map[*ssa.FreeVar]bool{}, stableLoc: map[*ssa.Alloc]bool{}, pass1: p1}
+			atcallSeen: map[*Clause]bool{}, noContract: map[string]bool{}, heapModule: map[string]bool{}, stableFV: map[*ssa.FreeVar]bool{}, stableLoc: map[*ssa.Alloc]bool{}, storeRecs: map[*ssa.BasicBlock]map[string][]storeRec{}, imprecise: map[*ssa.BasicBlock]map[string]bool{}, pass1: p1}
 		if con != nil {
 			g.allocBound = con.AllocBound
 		}
